@@ -1,6 +1,7 @@
 """Evaluation of contract expressions (Go syntax AST from spec.py) to symbolic values."""
 from .term import *
 from .values import *
+import re
 from .spec import SpecError
 
 CONVS = {'int', 'int8', 'int16', 'int32', 'int64', 'uint', 'uint8', 'uint16', 'uint32', 'uint64', 'byte', 'rune', 'uintptr'}
@@ -266,17 +267,25 @@ class SpecEval(object):
         cnt = {}
         for x in subterms(body):
             if x.op == 'select' and x.args[0].sort in (ARR_II, ARR_IB):
-                r = lin_split(x.args[1], k)
-                if r is not None:
-                    cnt[r] = cnt.get(r, 0) + 1
+                for cf in (1, -1):
+                    r = lin_split(x.args[1], k, cf)
+                    if r is not None:
+                        cnt[(cf, r)] = cnt.get((cf, r), 0) + 1
         pats = []
         if cnt:
-            rest = max(cnt, key=lambda r: (cnt[r], -len(smt(r))))
-            if not (rest.is_int() and rest.val == 0):
+            cf, rest = max(cnt, key=lambda cr: (cnt[cr], cr[0], -len(smt(cr[1]))))
+            if cf == 1 and not (rest.is_int() and rest.val == 0):
                 j = const('%s?%dj' % (name, n), INT)
                 m = {k: sub(j, rest)}
                 body = substitute(body, m)
                 lo, hi = add(lo, rest), add(hi, rest)
+                k = j
+            elif cf == -1:
+                # index = rest - k  ->  j = rest - k, k = rest - j, range lo <= k < hi  <=>  rest-hi < j <= rest-lo
+                j = const('%s?%dj' % (name, n), INT)
+                m = {k: sub(rest, j)}
+                body = substitute(body, m)
+                lo, hi = add(sub(rest, hi), ONE), add(sub(rest, lo), ONE)
                 k = j
             seen = set()
             for x in subterms(body):
@@ -365,6 +374,16 @@ class SpecEval(object):
             sf = ex.specs.specfuncs.get(name)
             if sf is not None:
                 return ex.call_specfunc(sf, [self.ev(a) for a in args], self)
+            m_ = re.match(r'^(\w+)_r(\d)$', name)
+            if m_:
+                # result k of a pure Go function, e.g. asciiFuzzyIndex_r0(input, pattern, cs)
+                full = ex.find_func(m_.group(1))
+                if full is not None:
+                    sp = ex.find_spec(full)
+                    if sp is not None and 'pure' in sp.opts:
+                        rts = ex.prog.funcs[full]['results']
+                        rt = rts[int(m_.group(2))]['type']
+                        return ex.pure_app(self.st, full, [self.ev(a) for a in args], int(m_.group(2)), ex.sort_of(rt))
             raise SpecError('%s: unknown function %s' % (self.what, name))
         if f[0] == 'sel':
             # method-style: recv.Name(args) -> spec func "Type.Name"
